@@ -143,8 +143,9 @@ ENTRY_CODE = _entry.__code__
 
 
 class Scheduler:
-    def __init__(self, prefix, fns, plan, record=False, stall_s=60.0, opcode=False):
+    def __init__(self, prefix, fns, plan, record=False, stall_s=60.0, opcode=False, raw=False):
         self.prefix = prefix
+        self.raw = raw  # threads started with _thread.start_new_thread: invisible to the threading module (embedded / uwsgi-style threads)
         self.fns = fns
         self.plan = [list(x) for x in plan]
         self.record = record
@@ -242,6 +243,9 @@ class Scheduler:
         _held.clear()
         try:
             for tid in range(self.n):
+                if self.raw:
+                    _thread.start_new_thread(self._thread_main, (tid,))
+                    continue
                 th = threading.Thread(target=self._thread_main, args=(tid,), name="sim-%d" % tid, daemon=True)
                 self.threads.append(th)
                 th.start()
